@@ -22,8 +22,9 @@ type c07Case struct {
 	Grouping int      `json:"grouping"`
 }
 
-var c07Groupings = []string{"SELECT * FROM t6%s", "SELECT a, av FROM t6%s GROUP BY x", "SELECT * FROM t6%s GROUP BY period(2s)", "SELECT a FROM t6%s GROUP BY _, period(3s)"}
-var c07GroupBys = [][]string{nil, {"x"}, nil, {"_"}}
+// grouping 4 names the field added by the altered storage mode first (only run there)
+var c07Groupings = []string{"SELECT * FROM t6%s", "SELECT a, av FROM t6%s GROUP BY x", "SELECT * FROM t6%s GROUP BY period(2s)", "SELECT a FROM t6%s GROUP BY _, period(3s)", "SELECT z0, a, ca FROM t6%s"}
+var c07GroupBys = [][]string{nil, {"x"}, nil, {"_"}, nil}
 
 func c07Grid() []string {
 	g := []string{}
@@ -156,6 +157,9 @@ func c07RunDataset(c *fw.Ctx, set []t6Cell, split int, only *c07Case) {
 			continue
 		}
 		for gi := range c07Groupings {
+			if gi == 4 && split != 3 {
+				continue
+			}
 			c07Check(c, env, c07Case{Dataset: set, Split: split, NowHalf: nh, Grouping: gi})
 			for _, a := range grid {
 				for _, u := range append([]string{""}, grid...) {
@@ -174,7 +178,7 @@ func init() {
 	fw.Register(&fw.Prop{
 		ID:          "C07",
 		Level:       "exploration",
-		Rule:        "datasets (4 rich sets + all single cells (quick) / + all pairs (thorough)) × storage {memory, disk, split} × clock {period end, mid-period} × (asOf, until) over {absent} ∪ {every boundary and mid-period instant from 1 s before the data to 2 s after, as RFC3339} ∪ {relative -1s, -2500ms, -5s} (asOf >= until pairs included) × grouping {native, GROUP BY x, period(2s), _ with period(3s)}; oracle: interval oracle of C06 with the must-window (asOf, until] ∩ table window (every native period wholly inside is covered exactly once with values recomputed from raw points), no row ending at or before asOf or beginning at or after until, straddling periods unconstrained, empty ranges give an error or no rows, refusals only for asOf before the table window or sub-period ranges, default window brackets (now - retention, now] within one resolution; non-trivial = range that keeps some but not all points",
+		Rule:        "datasets (4 rich sets + all single cells (quick) / + all pairs (thorough)) × storage {memory, disk, split, altered (a field added in front of the others half-way: the columns of one row cover different periods)} × clock {period end, mid-period} × (asOf, until) over {absent} ∪ {every boundary and mid-period instant from 1 s before the data to 2 s after, as RFC3339} ∪ {relative -1s, -2500ms, -5s} (asOf >= until pairs included) × grouping {native, GROUP BY x, period(2s), _ with period(3s), and for the altered table the added field named first}; oracle: interval oracle of C06 with the must-window (asOf, until] ∩ table window (every native period wholly inside is covered exactly once with values recomputed from raw points), no row ending at or before asOf or beginning at or after until, straddling periods unconstrained, empty ranges give an error or no rows, refusals only for asOf before the table window or sub-period ranges, default window brackets (now - retention, now] within one resolution; non-trivial = range that keeps some but not all points",
 		Assumptions: []string{"relative offsets are relative to the database (virtual) clock"},
 		Shards:      func(tier string) int { return 16 },
 		Budget: func(tier string) time.Duration {
@@ -190,7 +194,7 @@ func init() {
 			}
 			var idx int64
 			for _, set := range t6Datasets(maxN) {
-				for split := 0; split < 3; split++ {
+				for split := 0; split < 4; split++ {
 					idx++
 					if !c.Mine(idx) {
 						continue
